@@ -22,6 +22,11 @@ def parseSel (t : String) : Option Sel :=
 def parseOperand (t : String) : Option RS :=
   if t.startsWith "R:" then (parseList parseSel (t.drop 2).toString).map (fun s => .sels (fromIter s))
   else if t.startsWith "M:" then (parseBits (t.drop 2).toString).map .bits
+  else if t.startsWith "M" then
+    -- `M<k>:bits` — the same mask stored at bit offset `k` of a larger buffer (layout only)
+    match (t.drop 1).toString.splitOn ":" with
+    | [k, bits] => if k.toNat?.isSome then (parseBits bits).map .bits else none
+    | _ => none
   else none
 
 def showSel (s : Sel) : String := (if s.2 then "s" else "k") ++ toString s.1
@@ -168,6 +173,55 @@ def runProg (cur : CRS) (ops : List String) (out : List String) : String :=
       | none => "bad-op"
     | _ => "bad-op"
 
+/-- drain a mask cursor with `next_mask_chunk(bs)`:
+`initial_skip:chunk_rows:selected_rows:mask_start:bits` per chunk -/
+def drainMask (bs : Nat) : (fuel : Nat) → List Bool → Nat → List String
+  | 0, _, _ => []
+  | fuel + 1, rem, position =>
+    if rem.isEmpty then []
+    else
+      let ch := nextMaskChunk rem bs
+      s!"{ch.1}:{ch.2.1.length}:{countTrue ch.2.1}:{position + ch.1}:{showBits ch.2.1}" ::
+        drainMask bs fuel ch.2.2 (position + ch.1 + ch.2.1.length)
+
+def handlePlan (sel : Option RS) (polTok : String) (pol : Policy) (bs : Nat) : String :=
+  let any := match sel with | some s => s.selectsAny | none => true
+  let n := match sel with | some s => toString s.rowCount | none => "-"
+  let head := s!"any={showBool any} n={n}"
+  if polTok = "s" ∨ polTok = "m" ∨ sel.isNone then
+    match buildCursor pol sel with
+    | .all => s!"{head} all"
+    | .selectors s => s!"{head} sel empty={showBool s.isEmpty}"
+    | .mask rem =>
+      let chunks := drainMask bs (rem.length + 1) rem 0
+      -- after draining, the cursor is empty
+      s!"{head} mask empty=1 {showList id chunks}"
+  else head
+
+def handleWpred (sel : Option RS) (pol : Policy) (bs total : Nat) (pv : List Char)
+    (limit : Option Nat) (totalRows : Nat) : String :=
+  let pred : Nat → Bool := fun i => pv.getD i '0' == '1'
+  match withPredicate bs total pol sel pred limit totalRows with
+  | none => "ERR:read"
+  | some res =>
+    -- specification: rows delivered by the current selection, filtered by the predicate
+    -- (null → false), at most `limit` of them; domain = the selection's (or the tape's)
+    let base : List Nat := match sel with
+      | some s => Spec.trueIdx 0 s.mask
+      | none => List.range total
+    let want := match limit with
+      | some l => (base.filter pred).take l
+      | none => base.filter pred
+    let got : List Nat := match res with
+      | some r => Spec.trueIdx 0 r.mask
+      | none => List.range total
+    let fits : Bool := match sel with | some s => decide (s.mask.length ≤ total) | none => true
+    if fits && got != want then
+      s!"MODEL-SPEC-MISMATCH model={showRanges got} spec={showRanges want}"
+    else match res with
+      | none => "none"
+      | some r => showRS r
+
 def handle (toks : List String) : String :=
   match toks with
   | ["from", a] =>
@@ -251,6 +305,17 @@ def handle (toks : List String) : String :=
       let r := maskToSelectors m
       check (Spec.mask r) m (showSels r)
     | _ => "bad-op"
+  | ["default"] => showRS (.sels [])
+  | ["plan", a, pol, bs] =>
+    match (if a = "-" then some none else (parseOperand a).map some), parsePolicy pol, bs.toNat? with
+    | some sel, some p, some bs => handlePlan sel pol p bs
+    | _, _, _ => "bad-op"
+  | ["wpred", a, pol, bs, total, pv, lim, tr] =>
+    match (if a = "-" then some none else (parseOperand a).map some), parsePolicy pol, bs.toNat?,
+          total.toNat?, parseOptNat lim, tr.toNat? with
+    | some sel, some p, some bs, some total, some lim, some tr =>
+      handleWpred sel p bs total (if pv = "e" then [] else pv.toList) lim tr
+    | _, _, _, _, _, _ => "bad-op"
   | ["prog", a, ops] =>
     match parseOperand a with
     | some a => runProg (CRS.ofRS a) (if ops = "-" then [] else ops.splitOn ";") []
@@ -261,7 +326,8 @@ def handle (toks : List String) : String :=
           parsePolicy pol, (if pmasks = "-" then some [] else (pmasks.splitOn ";").mapM (fun m => if m = "e" then some [] else parseBits m)),
           parseOptNat off, parseOptNat lim, bs.toNat? with
     | some sizes, some chosen, some sel, some pol, some pmasks, some off, some lim, some bs =>
-      if mode = "sync" ∨ mode = "push" ∨ mode = "async" then handleRead mode sizes chosen sel pol pmasks off lim bs
+      let mode := (mode.splitOn ".").headD ""
+      if mode = "sync" ∨ mode = "push" ∨ mode = "async" ∨ mode = "pushr" then handleRead mode sizes chosen sel pol pmasks off lim bs
       else "bad-op"
     | _, _, _, _, _, _, _, _ => "bad-op"
   | _ => "bad-op"
